@@ -136,7 +136,8 @@ MatchEvent(mm, oe, se, s) ==
            [] se.e = "x" -> IF oe.id # se.id THEN Fail(s, "exit of a different node") ELSE Match(mm.heap, oe.v, se.v, s)
            [] se.e = "e" -> IF oe.id # se.id THEN Fail(s, "exit of a different node")
                             ELSE IF oe.cls # se.cls THEN Fail(s, "exception class differs: observed " \o oe.cls \o "/" \o oe.name \o ", specified " \o se.cls)
-                            ELSE IF se.name # "?" /\ oe.name # se.name THEN Fail(s, "exception type differs: observed " \o oe.name \o ", specified " \o se.name)
+                            \* which Python exception a host-level error is (TypeError, AttributeError, ...) is no property's business
+                            ELSE IF se.cls # "Other" /\ se.name # "?" /\ oe.name # se.name THEN Fail(s, "exception type differs: observed " \o oe.name \o ", specified " \o se.name)
                             ELSE s
            [] se.e = "p" -> IF oe.name # se.name \/ Len(oe.args) # Len(se.args) THEN Fail(s, "host call differs")
                             ELSE MatchSeq(mm.heap, oe.args, se.args, 1, s, 40)
@@ -145,7 +146,7 @@ MatchEvent(mm, oe, se, s) ==
                           ELSE IF se.out.t = "ok" THEN Match(mm.heap, oe.out.v, se.out.v, s)
                           ELSE IF se.out.e.exc = "any" THEN s
                           ELSE IF oe.out.e.exc # se.out.e.exc THEN Fail(s, "final exception class differs: observed " \o oe.out.e.exc \o "/" \o oe.out.e.name \o ", specified " \o se.out.e.exc)
-                          ELSE IF se.out.e.name # "?" /\ oe.out.e.name # se.out.e.name THEN Fail(s, "final exception type differs: observed " \o oe.out.e.name)
+                          ELSE IF se.out.e.exc # "Other" /\ se.out.e.name # "?" /\ oe.out.e.name # se.out.e.name THEN Fail(s, "final exception type differs: observed " \o oe.out.e.name)
                           ELSE s
                     s2 == IF ~s1.ok THEN s1 ELSE IF oe.ops # se.ops THEN Fail(s1, "ops charged to the call differ") ELSE s1
                     s3 == IF ~s2.ok THEN s2 ELSE IF oe.nev # se.nev THEN Fail(s2, "node evaluations differ") ELSE s2
@@ -210,7 +211,7 @@ PrintedP(m1, m2) ==
     IF r.t = "ok"
     THEN IF r.v.t = "none" THEN pr.n = 0
          ELSE LET s == ToRepr(m2.heap, r.v) IN IsBadStr(s) \/ pr.text = s \o <<10>>
-    ELSE pr.n = 1 /\ (r.e.exc = "any" \/ pr.head = r.e.name)       \* "any": the text does not parse (SQGrammar says which error)
+    ELSE pr.n = 1 /\ (r.e.exc \in {"any", "Other"} \/ pr.head = r.e.name)       \* "any": the text does not parse (SQGrammar says which error)
 PropViolation(m1, m2) ==
     \* the first two do not depend on which deviations of the evaluator are switched on
     IF ~PrintedP(m1, m2) THEN "REPL Printed: the loop did not print repr(result) / repr(exception) for this line"
